@@ -140,9 +140,20 @@ def history(rng, ty, order, profile, allow_delete=True, nops=None):
         elif phase == "shuf":
             rng.shuffle(load)
         load = load[:rng.randrange(1, len(load) + 1)]
-        for k in load:
-            lines.append("ins %s %s" % (k, rand_val(rng)))
+        # the load goes through Insert, through Update (its own copy of the descent and of the root
+        # split: a new global minimum that splits the root through Update was out of reach of an
+        # Insert-only load, R6-C08-d) or through both; the structure is compared after every
+        # operation of a short load, so that a later operation cannot repair what one left behind
+        loadkind = rng.choice(["ins", "ins", "upd", "mix"])
+        lsnap = 1 if len(load) <= 80 else rng.choice([4, 8])
+        for j, k in enumerate(load):
+            if loadkind == "upd" or (loadkind == "mix" and rng.random() < 0.5):
+                lines.append("upd %s %s" % (k, rand_cb(rng)))
+            else:
+                lines.append("ins %s %s" % (k, rand_val(rng)))
             present.append(k)
+            if j % lsnap == 0:
+                lines.append("snap")
         lines.append("snap")
     kinds = [k for k, v in w.items() for _ in range(v)]
     mode = "mix"
